@@ -134,6 +134,7 @@ func runProperty(o checkOpts) ([]*funcResult, *Engine, []string, error) {
 	if err != nil {
 		return nil, nil, nil, err
 	}
+	e.curProp = o.prop
 	var problems []string
 	problems = append(problems, e.loadErrs...)
 	extern := filepath.Join(o.verif, "specs", "externals.spec")
